@@ -10,6 +10,7 @@ from checks import _c17_conv as CV
 from checks import _c17_other as OT
 from checks import _c17_order as OR
 from checks import _c17_global as GL
+from checks import _c17_life as LF
 
 PROP = "C17"
 LEVEL = "model_checking"
@@ -37,7 +38,14 @@ RULE = (
     "figure is recounted over the matched utterances only; without --warn-missing an error is required. "
     "ARBITRARY RANK: compute-mvn-stats on files of rank 1, 2 and 3 with the feature dimension at every position "
     "and --dim spelled positive, negative and by default (13 layouts x 6 length sets x --bessel x groups); "
-    "subsetting by length on rank-1 and rank-3 files. GLOBAL STATE: ~36 cases of every family (and all late-time-stamp "
+    "subsetting by length on rank-1 and rank-3 files. FILE LIFECYCLE (family life): 18 writers (12 commands; "
+    "subsetting in each of hard link / copy / symlink x --only) x {contents changed, utterance removed, added, "
+    "both} x 2 namings: run, re-create the source, run again into the SAME destination; a re-run that reports "
+    "success must contain, identical (and for subsetting: related to the source file in the same way), everything "
+    "a run into a fresh destination writes. ONE FLAG AT A TIME (family flags): 21 base argument lists over all 16 "
+    "commands x every flag of the command (174 variants): base, variant, base, variant ... in one process with "
+    "--num-workers 0, every call compared with the same call made as the FIRST call of a fresh process (forked "
+    "from an interpreter that has called nothing). GLOBAL STATE: ~36 cases of every family (and all late-time-stamp "
     "cases) are evaluated with the stock default dtype and under torch.set_default_dtype(float64) in the "
     "parent: all observations must coincide, and under float64 the serial run must equal every worker schedule, "
     "the virtual spawn pool running its work with the default dtype reset to float32 as a fresh interpreter "
@@ -65,6 +73,10 @@ ASSUMPTIONS = [
     "non-unique --format-utt (user-made write collisions) not explored; torch-spect-data-dir-to-wds has no "
     "worker flag and is not covered",
     "MVN groups with a single frame are skipped (F20 is decided by C18)",
+    "re-runs into a used destination: a refused re-run (FileExistsError for links) and files of the earlier run "
+    "that a fresh run would not write are undocumented; both are counted, not judged",
+    "printed error-rate figures are compared with tolerance 1e-6 (they may be produced in float32)",
+    "--rand-* without --seed is documented as non-deterministic and is not compared across calls",
     "utterance order: 'by id' (python string order of the ids, as the subset command documents) is also required "
     "of the per-utterance error-rate listing and of the trn written from a token directory; seeded --rand-* "
     "selections are only required to be the same for every file suffix, not to match a particular generator",
@@ -88,6 +100,8 @@ FAMILIES = {
     "ord": (OR.cases_ord, OR.eval_ord, 4),
 }
 FAMILIES["f64"] = GL.make(FAMILIES) + (2,)
+FAMILIES["life"] = (LF.cases_life, LF.eval_life, 1)
+FAMILIES["flags"] = (LF.cases_flags, LF.eval_flags, 4)
 
 
 def shards(tier, seed):
